@@ -27,6 +27,8 @@ type CmImpl struct {
 	Load func(prog *Program) (*USnap, error)
 	// LoadLater: the package is first seen as a dependency of package `first` and requested in a later, incremental load
 	LoadLater func(prog *Program, first, then string) (*USnap, error)
+	// LoadAll: all packages of prog are requested in one load
+	LoadAll func(prog *Program) (*USnap, error)
 }
 
 const cmPkgPath = "example.com/m/p"
@@ -549,10 +551,15 @@ func genCommentCase(r *RNG) ([]string, Meta) {
 	if len(wantPkg) > 0 {
 		ls = append(ls, Line("cm", "wantpkg"))
 	}
-	if r.Chance(1, 3) {
+	switch r.Intn(3) {
+	case 0:
 		// the package is first loaded as a dependency of another one and requested later
 		ls = append(ls, Line("cm", "importer"))
 		g.feats["dependency-first-requested-later"] = true
+	case 1:
+		// another requested package, scanned first, refers to every type of this one
+		ls = append(ls, Line("cm", "importer", "user"))
+		g.feats["types-first-walked-from-another-requested-package"] = true
 	}
 	feats := SortedKeys(g.feats)
 	feats = append(feats, fmt.Sprintf("files:%d", len(order)), fmt.Sprintf("decls:%d", len(g.intents)/4*4))
@@ -592,15 +599,40 @@ func CommentsProperty(impl CmImpl) Property {
 			pk.Extra[n] = files[n]
 		}
 		prog := &Program{Module: "example.com/m", V2: impl.V2, Pkgs: []*ProgPkg{pk}}
-		later := false
+		later, user := false, false
+		var typeNames []string
 		for _, l := range lines {
-			if Fields(l)[1] == "importer" {
-				later = true
+			f := Fields(l)
+			if f[1] == "importer" {
+				if len(f) > 2 && f[2] == "user" {
+					user = true
+				} else {
+					later = true
+				}
+			}
+			if f[1] == "want" {
+				if k := Unhex(f[2]); strings.HasPrefix(k, "type ") && !strings.Contains(k, ".") && k[5] >= 'A' && k[5] <= 'Z' {
+					typeNames = append(typeNames, k[5:])
+				}
 			}
 		}
 		var snap *USnap
 		var err error
-		if later && impl.LoadLater != nil {
+		if user && impl.LoadAll != nil {
+			// a second requested package, scanned before this one (its path sorts first), uses every type of this one: the
+			// types are walked from there first
+			src := "package a\n\nimport p \"" + cmPkgPath + "\"\n\nvar _ p.Anchor\n\n// Use is here.\ntype Use struct {\n"
+			for i, n := range typeNames {
+				src += fmt.Sprintf("\tF%d p.%s\n", i, n)
+			}
+			src += "}\n"
+			if _, has := files["zz_anchor.go"]; !has {
+				pk.Extra["zz_anchor.go"] = "package p\n\ntype Anchor int\n"
+			}
+			a := &ProgPkg{Path: "example.com/m/a", Name: "a", File: "a.go", Imports: []string{cmPkgPath}, Source: src}
+			prog.Pkgs = append([]*ProgPkg{a}, prog.Pkgs...)
+			snap, err = impl.LoadAll(prog)
+		} else if later && impl.LoadLater != nil {
 			q := &ProgPkg{Path: "example.com/m/q", Name: "q", File: "q.go", Imports: []string{cmPkgPath},
 				Source: "package q\n\nimport _ \"" + cmPkgPath + "\"\n\n// Q is here.\ntype Q int\n"}
 			prog.Pkgs = append(prog.Pkgs, q)
